@@ -543,7 +543,7 @@ def complete_model(env, all_pre, timeout=20):
     return None
 
 
-def nice_model(asserts, model, budget=40.0, per_call=4):
+def nice_model(asserts, model, budget=20.0, per_call=3):
     """a counterexample whose values float64 can hit exactly: greedily pin the free variables of a satisfiable query to small
     integers while it stays satisfiable (knife-edge witnesses such as 'a difference equal to a threshold' replay in floats only
     when the other values are exactly representable).  Returns a model or None."""
@@ -586,7 +586,7 @@ def discharge(ob, axioms=(), timeout=20, solvers=('z3',), robust=True):
     if ob.cubes:
         # the cubes cover the domain: all cubes unsat => discharged; a sat cube => counterexample
         t_ = time.time()
-        res = smt.check_many([asserts + list(cube) for cube in ob.cubes], timeout_each=min(to, 10))
+        res = smt.check_many([asserts + list(cube) for cube in ob.cubes], timeout_each=min(to, 30))
         nq += len(ob.cubes); tt += time.time() - t_
         for cube, r in zip(ob.cubes, res):
             if r == 'sat':
@@ -759,9 +759,16 @@ def process_scenario(task):
                 vac = r['res']
             else:
                 vac = 'sat'
-            if out['vacuity'] is None or vac != 'sat':
+            if (out['vacuity'] is None or vac != 'sat') and not (vac == 'unsat' and getattr(ctx, 'decisions', None)):
                 out['vacuity'] = vac
             if vac == 'unsat':
+                if getattr(ctx, 'decisions', None):
+                    # a branch whose feasibility query was not decided in time during exploration was followed and turns out
+                    # infeasible: nothing to check on it (not an error as long as some path of the scenario is feasible)
+                    out['infeasible_paths'] = out.get('infeasible_paths', 0) + 1
+                    if out['infeasible_paths'] >= len(paths):
+                        out['errors'].append('vacuous scenario: every explored path has unsatisfiable preconditions')
+                    continue
                 out['errors'].append('vacuous scenario: preconditions unsatisfiable (path %d)' % pi)
                 continue
             # reachability twin: the definedness hypotheses every identity query carries must be jointly satisfiable with the
@@ -807,7 +814,8 @@ def process_scenario(task):
                                 envf = smt.model_to_float(full)
                                 rec['env'] = envf
                                 rec['replay'] = _replay(fn, params, envf, oid)
-                                if not rec['replay'].get('reproduced') and d.get('asserts'):
+                                if not rec['replay'].get('reproduced') and d.get('asserts') and out.setdefault('nice_tries', 0) < 3:
+                                    out['nice_tries'] += 1      # at most three re-derivations per scenario (each costs up to 20 s)
                                     # second attempt with a witness pinned to small integers wherever the query allows it
                                     nm = nice_model(d['asserts'], env)
                                     full2 = complete_model(nm, d['pre_all'] + list(ctx.pre), timeout=timeout) if nm else None
